@@ -55,6 +55,10 @@ def units(tier, seed):
     # generic objects of cameras whose names extend one another, with uuids that spell the difference (cam_front + "left_1" / cam_front_left + "1")
     for k in range(4):
         u.append(dict(path="generic_prefix", chunk=[k, 4]))
+    # generic objects over two cameras with the ground-truth list ordered so that one camera appears in two separate runs (front, back, front)
+    u.append(dict(path="generic_runs"))
+    # traffic-light estimates stamped 50 ms after the ground truth they are evaluated against (the nearest annotated sample)
+    u.append(dict(path="tlr_dt"))
     # the ground-truth list holds the very same object instances as the estimate list, in another order (a result evaluated against itself)
     u.append(dict(path="tlr_shared"))
     # every ordered pair of the light states of the golden table, one light per side
@@ -84,6 +88,21 @@ def run_unit(unit, acc):
                 continue
             for Gs in ES:
                 check_case(dict(path="generic", E=[list(x) for x in E], G=[list(x) for x in Gs], first=False), acc)
+        return
+    if unit["path"] == "generic_runs":
+        cams = CAMS_GEN
+        G3 = [("1", cams[0], "CAR"), ("12", cams[1], "CAR"), ("2", cams[0], "PEDESTRIAN"), ("3", cams[1], "CAR")]
+        for perm in itertools.permutations(range(4), 3):
+            Gs = [G3[i] for i in perm]
+            for E in _sets(2, GEN_LABELS[:1], cams, ["1", "2", "3", "12"]):
+                check_case(dict(path="generic", E=[list(x) for x in E], G=[list(x) for x in Gs], first=False), acc)
+        return
+    if unit["path"] == "tlr_dt":
+        ES = list(_sets(2, TLR_LABELS, CAMS_TLR[:1]))
+        for E in ES:
+            for Gs in ES:
+                for first in (False, True):
+                    check_case(dict(path="tlr", E=[list(x) for x in E], G=[list(x) for x in Gs], first=first, dt=50000), acc)
         return
     if unit["path"] == "tlr_shared":
         for E in _sets(3, TLR_LABELS, CAMS_TLR[:1]):
@@ -263,6 +282,9 @@ def check_case(case, acc):
         go = [_mk(path, *x) for x in GG]
         if case.get("shared"):
             go = [eo[EE.index(x)] for x in GG]
+        if case.get("dt"):
+            for o_ in eo:
+                o_.unix_time = 100 + case["dt"]
         e_in, g_in = list(eo), list(go)
         acc.exec()
         try:
